@@ -157,17 +157,18 @@ def share_tuples():
 
 
 def _evict_old(keep_hash):
+    """Keep the disk bounded: drop library caches of other trees, but never one that was used in the last three
+    hours (another check may be running against it right now) and always keep the two most recent others."""
+    import time
     libroot = os.path.join(BUILD, "lib")
     if not os.path.isdir(libroot):
         return
-    for d in os.listdir(libroot):
-        if d != keep_hash and not d.startswith("."):
-            # another tree's cache: keep at most the 2 most recent others
-            pass
-    others = sorted([d for d in os.listdir(libroot) if d != keep_hash],
+    others = sorted([d for d in os.listdir(libroot) if d != keep_hash and not d.startswith(".")],
                     key=lambda d: os.path.getmtime(os.path.join(libroot, d)))
+    now = time.time()
     for d in others[:-2] if len(others) > 2 else []:
-        shutil.rmtree(os.path.join(libroot, d), ignore_errors=True)
+        if now - os.path.getmtime(os.path.join(libroot, d)) > 3 * 3600:
+            shutil.rmtree(os.path.join(libroot, d), ignore_errors=True)
 
 
 def build_lib(cfg, targets=("ascon_static",), repo=None):
@@ -177,6 +178,10 @@ def build_lib(cfg, targets=("ascon_static",), repo=None):
     th = tree_hash(repo)
     d = os.path.join(BUILD, "lib", th, cfg.name)
     os.makedirs(d, exist_ok=True)
+    try:
+        os.utime(os.path.join(BUILD, "lib", th), None)      # mark this tree's cache as in use
+    except OSError:
+        pass
     lock = open(os.path.join(d, ".lock"), "w")
     fcntl.flock(lock, fcntl.LOCK_EX)
     try:
